@@ -4,7 +4,8 @@ from vlib import *
 from checks.enc_common import line_differential, replay_lines
 
 LEVEL = "proof"
-THEOREMS = ["words_roundtrip", "words_roundtrip_back", "boundary_echo", "wasm_memory_roundtrip",
+THEOREMS = ["words_roundtrip", "words_roundtrip_back", "boundary_echo", "write_words_spec", "write_u64_spec",
+            "wasm_memory_roundtrip",
             "transport_agree_masked", "transport_null_mask_full_false", "wasm_null_mask_leak",
             "pre_edge_inputs", "outputs_with_ffs_rtl", "outputs_with_ffs", "outputs_untouched"]
 
@@ -29,8 +30,11 @@ def run(ctx):
     ctx.cov["rule"] = ("words: every width 0..300 with all-ones payload+mask in 2- and 4-state, then boundary-biased random "
                        "payload/mask words (canonical and with garbage above width, short/long slices) through the real "
                        "host_value_from, host_value_to_value, veryl_component::Value::from_bits/unknown_at and a native echo "
-                       "component on a real HostContext (set_input[_masked] -> on_clock -> SimCtx::read/write -> output_words), "
-                       "vs the Lean model and a per-bit oracle; comp: generated testbenches with an echo component, a probe "
+                       "component on a real HostContext (set_input[_masked] -> on_clock -> every SimCtx accessor pair: read/write, "
+                       "read_u64/write_u64, read_words/write_words -> output_words; every width 0..300 x pair in the sweep, exact "
+                       "multiples of 32/64 and their neighbours in the random part), "
+                       "vs the Lean model and a per-bit oracle; comp: generated testbenches (forced widths 64/128/192/256/32/96 and "
+                       "neighbours x accessor pair first, then random) with an echo component, a probe "
                        "component and RTL flip-flops simulated on every backend configuration; "
                        "distinct = distinct (request, reply) pairs")
     ctx.notes.append("By reading, confirmed in the model (theorems transport_null_mask_full_false, wasm_null_mask_leak), not replayable "
